@@ -34,23 +34,25 @@ type Outcome struct {
 	Evals       int64  // oracle evaluations
 	InfraErr    error
 	Sample      interface{}
-	Hashes      []string // app hash after every block (filled by the executors that replicas are compared on)
+	Hashes      []string          // app hash after every block (filled by the executors that replicas are compared on)
+	Aux         map[string]string // executor-specific facts about the final state (compared between twin runs)
 }
 
 // Prop is one registered property check.
 type Prop struct {
-	ID         string
-	Level      string // exploration | fault_enumeration
-	Rule       string
-	Quick      Tier
-	Thorough   Tier
-	RunSeed    func(seed uint64, tier string) *Outcome
-	Replay     func(tr *kernel.Trace) *Outcome
-	Enumerate  func(tier string, emit func(*Outcome)) // optional deterministic enumeration part (fault_enumeration)
-	Real       []string
-	Stub       []string
-	Assumes    []string
-	FaultKinds []string
+	ID             string
+	Level          string // exploration | fault_enumeration
+	Rule           string
+	Quick          Tier
+	Thorough       Tier
+	RunSeed        func(seed uint64, tier string) *Outcome
+	Replay         func(tr *kernel.Trace) *Outcome
+	Enumerate      func(tier string, emit func(*Outcome)) // optional deterministic enumeration part (fault_enumeration)
+	Real           []string
+	Stub           []string
+	Assumes        []string
+	FaultKinds     []string
+	upgradeWrapped bool
 }
 
 var registry = map[string]*Prop{}
@@ -87,6 +89,7 @@ func RunSeedFor(batch uint64, prop string, i int) uint64 {
 }
 
 func Main(args []string) int {
+	applyUpgradeSubProfiles()
 	if len(args) == 0 {
 		fmt.Fprintln(os.Stderr, "usage: simcheck check|worker|replay|selftest|list ...")
 		return 2
